@@ -100,5 +100,157 @@ Proof.
     (rewrite py_errcheck_ok; [| cbn; unfold np_asarray_ids, py_compress; try apply select_NoDup; assumption ..]);
     cbn; unfold np_asarray_ids, py_compress, lift, norm_md, filter_table, filter_mask; cbn.
   all: try (destruct om; reflexivity). all: try (destruct sm; reflexivity).
-  Show.
+
 Qed.
+
+(* Table.filter with a function: its verdicts are an input of the model (Model/Filter.v filter_pred) *)
+Theorem gen_filter_pred_is_source_partial : forall verdicts invert a t inplace, NoDup (oids t) -> NoDup (sids t) ->
+  gen_filter (lift t) (KFun verdicts) (name_of a) invert inplace =
+  ROk (if inplace then lift (filter_pred verdicts invert a t) else lift t, lift (filter_pred verdicts invert a t)).
+Proof.
+  intros verdicts invert a t inplace No Ns. destruct t as [oi si m om sm ty]. cbn [oids sids] in No, Ns.
+  unfold gen_filter, filter_pred.
+  destruct a, inplace; cbn;
+    (rewrite py_errcheck_ok; [| cbn; unfold np_asarray_ids, py_compress; try apply select_NoDup; assumption ..]);
+    cbn; unfold np_asarray_ids, py_compress, lift, norm_md, filter_table, filter_mask; cbn.
+  all: try (destruct om; reflexivity). all: try (destruct sm; reflexivity).
+Qed.
+
+(* anything else is TypeError; an axis name that is none of the two is UnknownAxisError, before anything is touched *)
+Theorem gen_filter_other_refused : forall a t invert inplace,
+  gen_filter (lift t) KOther (name_of a) invert inplace = RErr E_TYPE.
+Proof. intros [] t invert []; reflexivity. Qed.
+Theorem gen_filter_bad_axis_refused : forall n o k invert inplace, n = N_whole \/ n = N_other ->
+  gen_filter o k n invert inplace = RErr E_UNKNOWN.
+Proof. intros n o k invert inplace [-> | ->]; destruct inplace; reflexivity. Qed.
+
+(* ---- remove_empty *)
+Lemma count_nz_pos l : Nat.ltb 0 (count_nz l) = negb (all_zero l).
+Proof.
+  unfold count_nz, all_zero. induction l as [|v l IH]; simpl; [reflexivity|].
+  destruct v; simpl; try exact IH; reflexivity.
+Qed.
+
+Lemma xor_false_map v : map (fun b => xorb b false) v = v.
+Proof. induction v as [|b v IH]; simpl; [reflexivity|]. rewrite IH, xorb_false_r. reflexivity. Qed.
+
+Lemma mask_samp t : np_gt0 (np_asarray_ravel (sp_count_along (sp_ne0 (tb_get_data (lift t))) 0%Z)) = nonempty_mask Samp t.
+Proof.
+  unfold np_gt0, np_asarray_ravel, sp_count_along, sp_ne0, tb_get_data, nonempty_mask. cbn.
+  rewrite map_map. apply map_ext. intros i. apply count_nz_pos.
+Qed.
+Lemma mask_obs t : np_gt0 (np_asarray_ravel (sp_count_along (sp_ne0 (tb_get_data (lift t))) 1%Z)) = nonempty_mask Obs t.
+Proof.
+  unfold np_gt0, np_asarray_ravel, sp_count_along, sp_ne0, tb_get_data, nonempty_mask. cbn.
+  rewrite map_map. apply map_ext. intros i. apply count_nz_pos.
+Qed.
+
+Lemma nonempty_mask_length a t : length (nonempty_mask a t) = length (ids a t).
+Proof. unfold nonempty_mask. rewrite map_length, seq_length. reflexivity. Qed.
+
+Lemma wf_NoDup t : wf t -> NoDup (oids t) /\ NoDup (sids t).
+Proof. intros (_ & _ & A & B & _). split; assumption. Qed.
+
+(* filtering (in place) by the ids a mask selects = the mask *)
+Lemma gen_filter_mask a t mask : wf t -> length mask = length (ids a t) ->
+  gen_filter (lift t) (KIter (np_mask_index (ids a t) mask)) (name_of a) false true =
+  ROk (lift (filter_table mask a t), lift (filter_table mask a t)).
+Proof.
+  intros W L. destruct (wf_NoDup t W) as [No Ns].
+  rewrite gen_filter_ids_is_source_partial by assumption.
+  change (np_mask_index (ids a t) mask) with (accepted mask a t).
+  rewrite filter_pred_eq_ids by assumption. unfold filter_pred. rewrite xor_false_map. reflexivity.
+Qed.
+
+Arguments gen_filter : simpl never.
+Arguments np_gt0 : simpl never.
+Arguments sp_count_along : simpl never.
+Arguments tb_get_data : simpl never.
+Arguments np_mask_index : simpl never.
+Arguments lift : simpl never.
+
+Lemma step_obs t : wf t ->
+  gen_filter (lift t) (KIter (np_mask_index (oids (o_t (lift t)))
+     (np_gt0 (np_asarray_ravel (sp_count_along (sp_ne0 (tb_get_data (lift t))) 1%Z))))) N_observation false true
+  = ROk (lift (remove_empty_axis Obs t), lift (remove_empty_axis Obs t)).
+Proof.
+  intros W. rewrite mask_obs. change (o_t (lift t)) with t. change (oids t) with (ids Obs t).
+  change N_observation with (name_of Obs). apply gen_filter_mask; [exact W|apply nonempty_mask_length].
+Qed.
+Lemma step_samp t : wf t ->
+  gen_filter (lift t) (KIter (np_mask_index (sids (o_t (lift t)))
+     (np_gt0 (np_asarray_ravel (sp_count_along (sp_ne0 (tb_get_data (lift t))) 0%Z))))) N_sample false true
+  = ROk (lift (remove_empty_axis Samp t), lift (remove_empty_axis Samp t)).
+Proof.
+  intros W. rewrite mask_samp. change (o_t (lift t)) with t. change (sids t) with (ids Samp t).
+  change N_sample with (name_of Samp). apply gen_filter_mask; [exact W|apply nonempty_mask_length].
+Qed.
+
+(* remove_empty on one axis / on 'whole' (samples first, then the observations of the result) / refusal.
+   PARTIAL: wf t (coherent table: rectangular matrix, ids without duplicates, metadata of matching length) *)
+Theorem gen_remove_empty_axis_is_source_partial : forall a t inplace, wf t ->
+  gen_remove_empty (lift t) (name_of a) inplace =
+  ROk (if inplace then lift (remove_empty_axis a t) else lift t, lift (remove_empty_axis a t)).
+Proof.
+  intros a t inplace W. unfold gen_remove_empty.
+  destruct a, inplace; cbn; unfold tb_copy; rewrite ?step_obs, ?step_samp by exact W; reflexivity.
+Qed.
+
+Theorem gen_remove_empty_whole_is_source_partial : forall t inplace, wf t ->
+  gen_remove_empty (lift t) N_whole inplace =
+  ROk (if inplace then lift (remove_empty_whole t) else lift t, lift (remove_empty_whole t)).
+Proof.
+  intros t inplace W. unfold gen_remove_empty, remove_empty_whole.
+  assert (W' : wf (remove_empty_axis Samp t)) by (apply wf_filter_table; exact W).
+  destruct inplace; cbn; unfold tb_copy; rewrite step_samp by exact W; cbn; rewrite step_obs by exact W'; reflexivity.
+Qed.
+
+Theorem gen_remove_empty_bad_axis_refused : forall o inplace, gen_remove_empty o N_other inplace = RErr E_UNKNOWN.
+Proof. reflexivity. Qed.
+
+(* ---- head *)
+Lemma head_mask_length k len : length (head_mask k len) = len.
+Proof. unfold head_mask. rewrite map_length, seq_length. reflexivity. Qed.
+
+Lemma gen_filter_head a t z inplace : wf t ->
+  gen_filter (lift t) (KIter (np_slice_to (ids a t) z)) (name_of a) false inplace =
+  ROk (if inplace then lift (filter_table (head_mask (Z.to_nat z) (length (ids a t))) a t) else lift t,
+       lift (filter_table (head_mask (Z.to_nat z) (length (ids a t))) a t)).
+Proof.
+  intros W. destruct (wf_NoDup t W) as [No Ns]. unfold np_slice_to.
+  rewrite gen_filter_ids_is_source_partial by assumption.
+  replace (firstn (Z.to_nat z) (ids a t)) with (accepted (head_mask (Z.to_nat z) (length (ids a t))) a t)
+    by (unfold accepted, head_mask; rewrite select_head_mask, Nat.sub_0_r; reflexivity).
+  rewrite filter_pred_eq_ids by (try exact W; apply head_mask_length).
+  unfold filter_pred. rewrite xor_false_map. reflexivity.
+Qed.
+
+(* head(n, m): the two refusals, then the observation filter on a copy and the sample filter of that copy in place;
+   the receiver is untouched.  PARTIAL: wf t *)
+Theorem gen_head_is_source_partial : forall n m t, wf t ->
+  gen_head (lift t) n m = match head n m t with ROk t' => ROk (lift t, lift t') | RErr c => RErr c end.
+Proof.
+  intros n m t W. unfold gen_head, head.
+  destruct (Z.leb n 0); [reflexivity|]. destruct (Z.leb m 0); [reflexivity|]. cbn.
+  change (o_t (lift t)) with t. change (oids t) with (ids Obs t). change N_observation with (name_of Obs).
+  rewrite gen_filter_head by exact W. cbn.
+  set (t1 := filter_table (head_mask (Z.to_nat n) (length (oids t))) Obs t).
+  assert (W1 : wf t1) by (apply wf_filter_table; exact W).
+  change (sids t) with (ids Samp t1). change N_sample with (name_of Samp).
+  rewrite gen_filter_head by exact W1. cbn. reflexivity.
+Qed.
+
+(* the hypotheses of the partial bridges are satisfiable *)
+Definition bridge_ex : table := mkT [1; 2]%Z [7; 8; 9]%Z [[0; 1; 0]; [0; 0; 0]]%Z None (Some [md_empty; md_empty; md_empty]) 0%Z.
+Example bridge_ex_wf : wf bridge_ex.
+Proof.
+  unfold wf, bridge_ex; cbn. repeat split; try reflexivity.
+  - repeat constructor; cbn; intuition congruence.
+  - repeat constructor; cbn; intuition congruence.
+  - repeat constructor; cbn; intuition congruence.
+Qed.
+Example bridge_ex_remove_empty :
+  option_map (fun p => (oids (o_t (snd p)), sids (o_t (snd p)), mat (o_t (snd p))))
+    (match gen_remove_empty (lift bridge_ex) N_whole true with ROk p => Some p | RErr _ => None end)
+  = Some ([1], [8], [[1]])%Z.
+Proof. vm_compute. reflexivity. Qed.
